@@ -54,6 +54,13 @@ impl VisitorWithContext for OperationTransformVisitor<'_> {
 
 impl OperationTransformVisitor<'_> {
     fn update_status(&mut self, status: Status, tag: Option<String>) {
+        #[cfg(datadog_dd_native_iast_rewriter_js_verif)]
+        crate::verif_hooks::emit(
+            "update_status",
+            (status == Status::Modified) as i64,
+            self.transform_status.telemetry.get_instrumented_propagation() as i64,
+            tag.as_deref().unwrap_or(""),
+        );
         if self.transform_status.status == Status::Cancelled {
             return;
         }
